@@ -60,6 +60,24 @@ DecRecords(b, pos, n, acc, exact, spans) ==
     ELSE DecRecords(b, r.next, n - 1, Append(acc, r.rr), exact /\ r.exact,
                     Append(spans, [at |-> r.at, rdat |-> r.rdat, rdlen |-> r.rdlen, type |-> r.rr.type]))
 
+\* ---- envelope walker --------------------------------------------------------
+\* The offsets (0-based) at which the entries of a message begin, found from the header counts, the
+\* names, the fixed 4-byte / 10-byte parts and each record's RDLENGTH only (no typed content): the
+\* offsets of all entries up to and including the first one whose envelope is broken.
+RECURSIVE WalkEntries(_, _, _, _, _)
+WalkEntries(b, pos, nq, nr, acc) ==
+  IF nq = 0 /\ nr = 0 THEN acc
+  ELSE LET nm == RefDecodeName(b, pos)
+           fixed == IF nq > 0 THEN 4 ELSE 10 IN
+    IF ~nm.ok \/ nm.next + fixed > Len(b) THEN Append(acc, pos)
+    ELSE IF nq > 0 THEN WalkEntries(b, nm.next + 4, nq - 1, nr, Append(acc, pos))
+    ELSE LET rdlen == U16At(b, nm.next + 9) IN
+      IF nm.next + 10 + rdlen > Len(b) THEN Append(acc, pos)
+      ELSE WalkEntries(b, nm.next + 10 + rdlen, 0, nr - 1, Append(acc, pos))
+EnvelopeStarts(b) ==
+  IF Len(b) < 12 THEN <<>>
+  ELSE WalkEntries(b, 12, U16At(b, 5), U16At(b, 7) + U16At(b, 9) + U16At(b, 11), <<>>)
+
 \* ---- EDNS -------------------------------------------------------------------
 FirstOpt(ar) == IF \E i \in 1 .. Len(ar) : ar[i].type = 41
                 THEN CHOOSE i \in 1 .. Len(ar) : ar[i].type = 41 /\ \A j \in 1 .. i - 1 : ar[j].type # 41
